@@ -73,6 +73,9 @@ pub struct Solo {
 thread_local! {
     /// delay between `Multiplexor::new_detailed` and the start of the connection task (C16)
     pub static TASK_START_DELAY_MS: std::cell::Cell<u64> = const { std::cell::Cell::new(0) };
+    /// the connection task of the next `setup` stays subject to tokio's cooperative budget
+    /// (see `Sim::spawn_constrained`)
+    pub static SOLO_COOP: std::cell::Cell<bool> = const { std::cell::Cell::new(false) };
 }
 
 /// policy of the peer's receive loop
@@ -101,14 +104,19 @@ pub fn setup(cfg: &EpCfg, opts: penguin_mux::config::Options, link_cfg: &LinkCfg
     let task_end = Rc::new(RefCell::new(None));
     let (te, seq2, t0) = (task_end.clone(), seq.clone(), tokio::time::Instant::now());
     let start_delay = TASK_START_DELAY_MS.with(|c| c.get());
-    sim.spawn("conn0", CLS_CONN0, async move {
+    let conn_task = async move {
         // the application may start the connection task some time after building the multiplexor
         if start_delay > 0 {
             tokio::time::sleep(Duration::from_millis(start_delay)).await;
         }
         let r = t.into_task().await;
         *te.borrow_mut() = Some((seq2.tick(), format!("{r:?}"), t0.elapsed()));
-    });
+    };
+    if SOLO_COOP.with(|c| c.get()) {
+        sim.spawn_constrained("conn0", CLS_CONN0, conn_task);
+    } else {
+        sim.spawn("conn0", CLS_CONN0, conn_task);
+    }
     let raw = Rc::new(RefCell::new(Raw::new(&link, 1)));
     let peer: Peer = Default::default();
     // ---- the peer's receive loop
@@ -200,6 +208,9 @@ pub struct C10Plan {
     /// silent (nothing fails, no Close is answered)
     #[serde(default)]
     pub silent_after_garbage: bool,
+    /// the connection task stays subject to tokio's cooperative budget
+    #[serde(default)]
+    pub coop: bool,
 }
 
 const ID_BYS: u32 = 0xb0;
@@ -225,7 +236,9 @@ pub fn run_c10(plan: &C10Plan, sched: &Sched, record: bool) -> Outcome {
 
 async fn run_c10_async(plan: C10Plan, sched: Sched, record: bool) -> Outcome {
     let no_ack = Rc::new(RefCell::new(vec![]));
+    SOLO_COOP.with(|c| c.set(plan.coop));
     let mut s = setup(&plan.ep, plan.ep.options(), &plan.link, plan.weights, &sched, record, RxPolicy { ack_pushes: true, ack_req_connects: Some(plan.peer_rwnd.max(1)) }, no_ack);
+    SOLO_COOP.with(|c| c.set(false));
     let viol: Rc<RefCell<Vec<(String, String)>>> = Default::default();
     let probes: Rc<RefCell<BTreeMap<String, u64>>> = Default::default();
     let nbytes = plan.bystander_bytes;
@@ -707,6 +720,9 @@ pub struct C13Plan {
     /// A bridge that sits on data it could not send for lack of credit then has a failed write.
     #[serde(default)]
     pub late_end: u8,
+    /// the connection task and the bridge stay subject to tokio's cooperative budget
+    #[serde(default)]
+    pub coop: bool,
 }
 fn local_byte(i: u64) -> u8 {
     pbyte(13, 0, i)
@@ -718,19 +734,27 @@ pub fn run_c13(plan: &C13Plan, sched: &Sched, record: bool) -> Outcome {
 }
 async fn run_c13_async(plan: C13Plan, sched: Sched, record: bool) -> Outcome {
     let no_ack = Rc::new(RefCell::new(if plan.ack_mode == 0 { vec![] } else { vec![ID_BRG] }));
+    SOLO_COOP.with(|c| c.set(plan.coop));
     let mut s = setup(&plan.ep, plan.ep.options(), &plan.link, plan.weights, &sched, record, RxPolicy { ack_pushes: true, ack_req_connects: None }, no_ack);
+    SOLO_COOP.with(|c| c.set(false));
     let (io, log) = ScriptIo::new(plan.rs.clone(), plan.ws.clone(), plan.fl.clone(), plan.sh.clone(), local_byte);
     let result: Rc<RefCell<Option<(u64, Result<(usize, usize), std::io::ErrorKind>)>>> = Default::default();
     {
         let (m, res, seq, bufr) = (s.mux.clone(), result.clone(), s.seq.clone(), plan.bufreader);
-        s.sim.spawn("bridge", CLS_OTHER, async move {
+        let coop = plan.coop;
+        let bridge = async move {
             let Ok(st) = m.accept_stream_channel().await else { return };
             let r = match bufr {
                 Some(cap) => st.into_copy_bidirectional_with_buf(tokio::io::BufReader::with_capacity(cap.max(1), io)).await,
                 None => st.into_copy_bidirectional_with_buf(io).await,
             };
             *res.borrow_mut() = Some((seq.tick(), r.map_err(|e| e.kind())));
-        });
+        };
+        if coop {
+            s.sim.spawn_constrained("bridge", CLS_OTHER, bridge);
+        } else {
+            s.sim.spawn("bridge", CLS_OTHER, bridge);
+        }
     }
     let peer_sent: Rc<RefCell<Vec<u8>>> = Default::default();
     let peer_end_at: Rc<RefCell<Option<u64>>> = Default::default();
